@@ -340,6 +340,11 @@ public:
     size_t ncB = B.getNumberOfColumns();
     if (ncA != nrB) throw DimensionException("MatrixTools::mult(). nrows B != ncols A.", nrB, ncA);
     if (ncA != D.size()) throw DimensionException("MatrixTools::mult(). Vector size is not equal to matrix size.", D.size(), ncA);
+    if (ncA != iD.size()) throw DimensionException("MatrixTools::mult(). Imaginary vector size is not equal to matrix size.", iD.size(), ncA);
+    if (iA.getNumberOfRows() != nrA) throw DimensionException("MatrixTools::mult(). nrows iA != nrows A.", iA.getNumberOfRows(), nrA);
+    if (iA.getNumberOfColumns() != ncA) throw DimensionException("MatrixTools::mult(). ncols iA != ncols A.", iA.getNumberOfColumns(), ncA);
+    if (iB.getNumberOfRows() != nrB) throw DimensionException("MatrixTools::mult(). nrows iB != nrows B.", iB.getNumberOfRows(), nrB);
+    if (iB.getNumberOfColumns() != ncB) throw DimensionException("MatrixTools::mult(). ncols iB != ncols B.", iB.getNumberOfColumns(), ncB);
     O.resize(nrA, ncB);
     iO.resize(nrA, ncB);
     Scalar ab, aib;
